@@ -5,6 +5,7 @@ pub mod c13;
 pub mod c14;
 pub mod c16;
 pub mod c17;
+pub mod c20;
 pub mod dump;
 pub mod ind;
 
